@@ -54,6 +54,7 @@ const CAPS: [usize; 3] = [0, 1, 2];
 const LETTERS: [&str; 5] = ["create", "drop oldest handle", "drop newest handle", "finish oldest sound", "callback"];
 const NL: u64 = 5;
 const STALE_CASES: u64 = 5;
+const E2_CASES: u64 = 6;
 
 fn depth(tier: Tier) -> usize {
 	tier.pick(7, 9)
@@ -76,10 +77,13 @@ impl Check for C08 {
 		Level::ModelChecking
 	}
 	fn num_cases(&self, _tier: Tier) -> u64 {
-		KINDS.len() as u64 * 3 * NL + STALE_CASES
+		KINDS.len() as u64 * 3 * NL + STALE_CASES + E2_CASES
 	}
 	fn describe(&self, tier: Tier, idx: u64) -> String {
 		let g = KINDS.len() as u64 * 3 * NL;
+		if idx >= g + STALE_CASES {
+			return format!("E2 interleavings: {}", e2_name(idx - g - STALE_CASES));
+		}
 		if idx >= g {
 			return format!("stale-id scenario #{}", idx - g);
 		}
@@ -95,6 +99,9 @@ impl Check for C08 {
 	}
 	fn sig_hint(&self, _tier: Tier, idx: u64) -> String {
 		let g = KINDS.len() as u64 * 3 * NL;
+		if idx >= g + STALE_CASES {
+			return format!("E2 {}", e2_name(idx - g - STALE_CASES));
+		}
 		if idx >= g {
 			return format!("stale-id scenario #{}", idx - g);
 		}
@@ -110,11 +117,18 @@ impl Check for C08 {
 			"destruction on the audio thread is observed through probe Drop impls and through the deallocation monitor of the callback".into(),
 		]
 	}
+	fn case_timeout_ms(&self, _tier: Tier) -> u64 {
+		900_000
+	}
 	fn extra_evidence(&self, tier: Tier) -> Vec<(String, J)> {
-		vec![("depth".into(), J::u(depth(tier) as u64)), ("alphabet".into(), J::arr_str(LETTERS.iter().map(|s| s.to_string())))]
+		vec![("preemption_bound".into(), J::s(tier.pick("2", "3"))), ("depth".into(), J::u(depth(tier) as u64)), ("alphabet".into(), J::arr_str(LETTERS.iter().map(|s| s.to_string())))]
 	}
 	fn run_case(&self, tier: Tier, idx: u64, ctx: &mut Ctx) {
 		let g = KINDS.len() as u64 * 3 * NL;
+		if idx >= g + STALE_CASES {
+			e2_create_vs_remove(tier, idx - g - STALE_CASES, ctx);
+			return;
+		}
 		if idx >= g {
 			let which = idx - g;
 			let r = catch(|| stale_ids(which, ctx));
@@ -607,4 +621,265 @@ fn stale_ids(which: u64, ctx: &mut Ctx) {
 	ctx.state(hash64(&("stale", which)));
 	ctx.nontrivial(hash64(&("stale", which)));
 	ctx.outcome(100 + which);
+}
+
+// ---------------------------------------------------------------------------------------------
+// E2: the gameplay thread's create path || the audio thread's remove-and-add step
+
+fn e2_name(i: u64) -> String {
+	let kind = ["sounds on the main track (ResourceStorage)", "clocks (SelfReferentialResourceStorage)", "sub-tracks (ResourceStorage)"][(i % 3) as usize];
+	let cap = [1, 2][((i / 3) % 2) as usize];
+	format!("{} capacity {}: game(create; create) || audio(2 callbacks, the first removes a finished/dropped resource), then a sequential epilogue", kind, cap)
+}
+
+fn e2_create_vs_remove(tier: Tier, which: u64, ctx: &mut Ctx) {
+	use crate::sched::{self, Config, Exec};
+	use std::sync::Mutex;
+	fn filt(s: &'static str) -> bool {
+		s.starts_with("res.") || s.starts_with("rtrb.") || s.starts_with("arena.") || s.ends_with(".removed.load") || s.ends_with(".removed.store")
+	}
+	let kind = which % 3;
+	let cap = [1usize, 2][((which / 3) % 2) as usize];
+	let cfg = Config {
+		filter: filt,
+		horizon: 3000,
+		max_spin_rounds: 8,
+		record_sites: true,
+	};
+	#[derive(Debug, Clone, Default, PartialEq)]
+	struct Obs {
+		created: Vec<bool>,
+		panics: Vec<String>,
+		epilogue: Vec<String>,
+	}
+	let mut body = |prefix: &[u8]| -> (sched::RunResult, Obs) {
+		let caps = Capacities {
+			sub_track_capacity: if kind == 2 { cap } else { 4 },
+			send_track_capacity: 1,
+			clock_capacity: if kind == 1 { cap } else { 1 },
+			modulator_capacity: 1,
+			listener_capacity: 1,
+		};
+		let mut m = rig::manager(8, 2, caps, MainTrackBuilder::new().sound_capacity(if kind == 0 { cap } else { 4 }));
+		let mut buf = vec![0.0f32; 8];
+		// fill to capacity, adopt, then mark the first one for removal
+		let mut probes: Vec<Arc<ProbeShared>> = vec![];
+		let mut others: Vec<Box<dyn Any + Send>> = vec![];
+		for _ in 0..cap {
+			match kind {
+				0 => {
+					let d = ProbeSoundData::new((0.1, 0.0), (0.1, 0.0));
+					probes.push(m.play(d).expect("fill"));
+				}
+				1 => others.push(Box::new(m.add_clock(ClockSpeed::TicksPerSecond(1.0)).expect("fill"))),
+				_ => others.push(Box::new(m.add_sub_track(TrackBuilder::new()).expect("fill"))),
+			}
+		}
+		rig::callback(&mut m, &mut buf, 2, 2);
+		if kind == 0 {
+			probes[0].finished.store(true, Ordering::SeqCst);
+		} else {
+			others.remove(0);
+		}
+		let mut renderer = m.backend_mut().renderer.take().unwrap();
+		let obs = Arc::new(Mutex::new(Obs::default()));
+		let back = Arc::new(Mutex::new(None));
+		let keep: Arc<Mutex<Option<(Manager, Vec<Arc<ProbeShared>>, Vec<Box<dyn Any + Send>>)>>> = Arc::new(Mutex::new(None));
+		let mut ex = Exec::begin(&cfg, prefix);
+		{
+			let (obs, keep) = (obs.clone(), keep.clone());
+			ex.spawn("game", move || {
+				for _ in 0..2 {
+					let ok = match kind {
+						0 => {
+							let d = ProbeSoundData::new((0.1, 0.0), (0.1, 0.0));
+							match m.play(d) {
+								Ok(p) => {
+									probes.push(p);
+									true
+								}
+								Err(_) => false,
+							}
+						}
+						1 => match m.add_clock(ClockSpeed::TicksPerSecond(1.0)) {
+							Ok(c) => {
+								others.push(Box::new(c));
+								true
+							}
+							Err(_) => false,
+						},
+						_ => match m.add_sub_track(TrackBuilder::new()) {
+							Ok(t) => {
+								others.push(Box::new(t));
+								true
+							}
+							Err(_) => false,
+						},
+					};
+					obs.lock().unwrap().created.push(ok);
+				}
+				*keep.lock().unwrap() = Some((m, probes, others));
+			});
+		}
+		{
+			let (obs, back) = (obs.clone(), back.clone());
+			ex.spawn("audio", move || {
+				let mut buf = [0.0f32; 4];
+				for _ in 0..2 {
+					let r = rig::catch(|| {
+						renderer.on_start_processing();
+						renderer.process(&mut buf, 2);
+					});
+					if let Err(p) = r {
+						obs.lock().unwrap().panics.push(p);
+						break;
+					}
+				}
+				*back.lock().unwrap() = Some(renderer);
+			});
+		}
+		let res = ex.run();
+		let mut o = obs.lock().unwrap().clone();
+		// ---- sequential epilogue: everything is finished / dropped; after two callbacks the arena must be empty
+		// and `cap` fresh resources must be creatable; then remove those too (this is where a corrupted
+		// unused-ring invariant shows)
+		let taken = keep.lock().unwrap().take();
+		let renderer = back.lock().unwrap().take();
+		if let (Some((mut m, probes, mut others)), Some(r), true) = (taken, renderer, o.panics.is_empty()) {
+			m.backend_mut().renderer = Some(r);
+			let mut buf = vec![0.0f32; 8];
+			let live_before = match kind {
+				0 => probes.iter().filter(|p| !p.finished.load(Ordering::SeqCst)).count(),
+				_ => others.len(),
+			};
+			let reported = match kind {
+				0 => m.main_track().num_sounds(),
+				1 => m.num_clocks(),
+				_ => m.num_sub_tracks(),
+			};
+			if reported > cap {
+				o.epilogue.push(format!("count {} above capacity {}", reported, cap));
+			}
+			let _ = live_before;
+			for round in 0..3 {
+				for p in &probes {
+					p.finished.store(true, Ordering::SeqCst);
+				}
+				others.clear();
+				for _ in 0..2 {
+					let rep = rig::callback(&mut m, &mut buf, 2, 2);
+					if let Some(p) = rep.panic {
+						o.epilogue.push(format!("audio-thread panic in the epilogue (round {}): {}", round, p));
+						break;
+					}
+					if rep.allocs + rep.frees > 0 {
+						o.epilogue.push("allocation/free on the audio thread in the epilogue".to_string());
+					}
+				}
+				if !o.epilogue.is_empty() {
+					break;
+				}
+				let n = match kind {
+					0 => m.main_track().num_sounds(),
+					1 => m.num_clocks(),
+					_ => m.num_sub_tracks(),
+				};
+				if n != 0 {
+					o.epilogue.push(format!("round {}: {} resource(s) still counted two callbacks after everything was finished/dropped", round, n));
+					break;
+				}
+				let mut made = 0;
+				let mut new_probes = vec![];
+				for _ in 0..cap {
+					let ok = match kind {
+						0 => match m.play(ProbeSoundData::new((0.1, 0.0), (0.1, 0.0))) {
+							Ok(p) => {
+								new_probes.push(p);
+								true
+							}
+							Err(_) => false,
+						},
+						1 => match m.add_clock(ClockSpeed::TicksPerSecond(1.0)) {
+							Ok(c) => {
+								others.push(Box::new(c));
+								true
+							}
+							Err(_) => false,
+						},
+						_ => match m.add_sub_track(TrackBuilder::new()) {
+							Ok(t) => {
+								others.push(Box::new(t));
+								true
+							}
+							Err(_) => false,
+						},
+					};
+					if ok {
+						made += 1;
+					}
+				}
+				if made != cap {
+					o.epilogue.push(format!("round {}: only {} of {} slots reusable although nothing is alive", round, made, cap));
+					break;
+				}
+				rig::callback(&mut m, &mut buf, 2, 2);
+				for p in new_probes {
+					p.finished.store(true, Ordering::SeqCst);
+				}
+			}
+			for p in &probes {
+				if p.dropped_in_callback.load(Ordering::SeqCst) {
+					o.epilogue.push("resource destroyed on the audio thread".to_string());
+				}
+			}
+		}
+		(res, o)
+	};
+	let mut outcomes = std::collections::HashSet::new();
+	let mut fails: Vec<(String, String)> = vec![];
+	let mut nontrivial = 0u64;
+	let kname = ["sounds", "clocks", "sub-tracks"][kind as usize];
+	let mut judge = |res: &sched::RunResult, o: &Obs, choices: &[u8]| {
+		outcomes.insert(hash64(&format!("{:?}", o)));
+		if choices.iter().any(|c| *c != 0) {
+			nontrivial += 1;
+		}
+		for p in res.panics.iter().chain(o.panics.iter()) {
+			fails.push((format!("panic while the create path races the audio thread's remove-and-add: {} :: E2 {}", p, kname), sched::fmt_schedule(res)));
+		}
+		for e in &o.epilogue {
+			let generic = if e.contains("panic") {
+				format!("after a create racing a removal: {} :: E2 {}", crate::rig::normalize_panic(e), kname)
+			} else {
+				format!("after a create racing a removal: {} :: E2 {}", crate::rig::normalize_panic(e), kname)
+			};
+			fails.push((generic, format!("{:?}; {}", o, sched::fmt_schedule(res))));
+		}
+		// with capacity c, c resources alive of which one is being removed: at most one of the two creates can succeed
+		// before the removal, and never more than the capacity are alive
+		let ok = o.created.iter().filter(|x| **x).count();
+		if ok > 1 {
+			// the second success needs a second free slot: only possible if capacity 2 and ... no: one removal frees one slot
+			fails.push((format!("more creations succeed than slots were freed :: E2 {}", kname), format!("{:?}; {}", o, sched::fmt_schedule(res))));
+		}
+	};
+	let stats = sched::explore(tier.pick(Some(2), Some(3)), 3_000_000, &mut body, &mut judge);
+	if let Some(e) = stats.error {
+		ctx.fail(format!("MACHINERY: scheduler error: {}", e), "");
+	}
+	ctx.schedules += stats.schedules;
+	ctx.evals += stats.schedules;
+	ctx.traces += stats.schedules;
+	ctx.transitions += stats.schedules * stats.max_points as u64;
+	ctx.count(&format!("e2_schedules[{} cap {}]", kname, cap), stats.schedules);
+	ctx.count(&format!("e2_max_points[{} cap {}]", kname, cap), stats.max_points as u64);
+	ctx.count("e2_capped", stats.capped as u64);
+	for o in outcomes {
+		ctx.outcome(o);
+		ctx.state(o);
+	}
+	ctx.nontrivial_extra += nontrivial;
+	for (s, d) in fails {
+		ctx.fail(s, d);
+	}
 }
